@@ -409,7 +409,8 @@ Definition constrainers (c : config) (a : astate) (m : omap) (o : op) : list (li
   | OSetPeer i q =>
       match nget (aconns a) i with
       | Some ac =>
-          if ac_allow ac && negb (ep_allowed_peer c q (ac_ep ac))
+          if (ac_allow ac && negb (ep_allowed_peer c q (ac_ep ac))) ||
+             (match a_par a (Conn i) with [] => true | _ => false end)
           then [([System; Transient; Peer q], ostat m (Conn i), 255, true)]
           else [([Peer q], ostat m (Conn i), 255, true)]
       | None => []
